@@ -54,6 +54,8 @@ type termCell struct {
 	Fmt     string `json:"fmt"`
 	Base    string `json:"base"`
 	Inp     string `json:"inp"`
+	Dst     string `json:"dst"`  // destination class (Term.tla DstCfg)
+	Size    int    `json:"size"` // 0 = short message of the input class, else its exact length in bytes
 }
 
 type termCustom struct {
@@ -81,6 +83,8 @@ type termLine struct {
 	ID      int    `json:"id"`
 	W       string `json:"w,omitempty"` // "o" normal, "e" error destination, "do"/"de" package defaults
 	P       string `json:"p,omitempty"` // payload, base64
+	N       int    `json:"n,omitempty"` // long payload: the N raw bytes follow this line (same write(2))
+	raw     []byte // decoded payload (reader side)
 	Out     string `json:"out,omitempty"`
 	Pv      string `json:"pv,omitempty"`
 	Pvs     string `json:"pvs,omitempty"`
@@ -103,7 +107,7 @@ type termObs struct {
 // ------------------------------------------------------------------------------------------
 // inputs: message and arguments of a cell (the spec's `inp` classes)
 
-func termMsg(c termCell, seed int) string {
+func termMsgHead(c termCell, seed int) string {
 	switch c.Inp {
 	case "kv":
 		return fmt.Sprintf("c12 \"quoted\" cell %d %s s%d", c.ID, c.Ep, seed)
@@ -111,6 +115,34 @@ func termMsg(c termCell, seed int) string {
 		return fmt.Sprintf("c12 cell %d %s s%d\nsecond line %d\nthird", c.ID, c.Ep, seed, c.ID)
 	}
 	return fmt.Sprintf("c12 cell %d %s s%d", c.ID, c.Ep, seed)
+}
+
+// termMsg is the message of the cell.  A sized cell (Size > 0) gets the short message of its
+// input class, numbered 8-byte words (so that no two stretches of the text are alike) and an end
+// mark, exactly Size bytes long; from 65537 bytes on a two-byte rune straddles offset 65536.
+func termMsg(c termCell, seed int) string {
+	head := termMsgHead(c, seed)
+	if c.Size <= 0 {
+		return head
+	}
+	tail := fmt.Sprintf(" end-of-%d$", c.ID)
+	b := make([]byte, 0, c.Size)
+	b = append(b, head...)
+	b = append(b, " |"...)
+	for k := 0; len(b)+8+len(tail) <= c.Size; k++ {
+		b = append(b, fmt.Sprintf("%07x ", k)...)
+	}
+	for len(b)+len(tail) < c.Size {
+		b = append(b, '.')
+	}
+	b = append(b, tail...)
+	if len(b) >= 65537 {
+		b[65535], b[65536] = 0xC3, 0xA9
+	}
+	if len(b) != c.Size {
+		panic(fmt.Sprintf("term: message of %d bytes wanted, %d built", c.Size, len(b)))
+	}
+	return string(b)
 }
 
 func termArgs(c termCell) []any {
@@ -162,6 +194,17 @@ type termRec struct {
 }
 
 func (w *termRec) Write(p []byte) (int, error) {
+	if len(p) > 4096 { // header line + the raw bytes + newline, still one write(2)
+		h, _ := json.Marshal(termLine{T: "W", ID: w.log.cur, W: w.name, N: len(p)})
+		b := make([]byte, 0, len(h)+len(p)+2)
+		b = append(append(append(b, h...), '\n'), p...)
+		b = append(b, '\n')
+		if _, err := w.log.f.Write(b); err != nil {
+			fmt.Fprintln(os.Stderr, "term-child: log write:", err)
+			os.Exit(97)
+		}
+		return len(p), nil
+	}
 	w.log.line(termLine{T: "W", ID: w.log.cur, W: w.name, P: base64.StdEncoding.EncodeToString(p)})
 	return len(p), nil
 }
@@ -283,8 +326,9 @@ func termPrepare(lg *termLog, c termCell, msg string) (call func(), err error) {
 	dw.ResetLevelWriters()
 
 	setup := func(e *slog.Entry) {
-		e.SetWriter(&termRec{lg, "o"})
-		e.SetErrorWriter(&termRec{lg, "e"})
+		if err == nil {
+			err = termDestinations(lg, c, e)
+		}
 		switch c.Fmt {
 		case "json":
 			e.SetJSONMode(true)
@@ -316,6 +360,9 @@ func termPrepare(lg *termLog, c termCell, msg string) (call func(), err error) {
 		slog.SetLevel(slog.Level(c.L))
 	default:
 		return nil, fmt.Errorf("unknown receiver kind %q", c.Recv)
+	}
+	if err != nil {
+		return nil, err
 	}
 	// SetLevel(Debug/Trace) switches the process-wide debug/trace modes on; the model has them off
 	is.SetDebugMode(false)
@@ -350,6 +397,65 @@ func termPrepare(lg *termLog, c termCell, msg string) (call func(), err error) {
 		return nil, fmt.Errorf("no entry point %q", c.Ep)
 	}
 	return func() { fn(target, ctx, msg, args...) }, nil
+}
+
+// termDestinations gives the logger the writer set of the cell's destination class (Term.tla
+// DstCfg) through the public API.  Recording writers write through to the child's log; "dflt"
+// leaves the logger without writers of its own (the package default writers record as well).
+func termDestinations(lg *termLog, c termCell, e *slog.Entry) error {
+	o, er := &termRec{lg, "o"}, &termRec{lg, "e"}
+	switch c.Dst {
+	case "rec", "":
+		e.SetWriter(o)
+		e.SetErrorWriter(er)
+	case "dflt":
+	case "discN":
+		e.SetWriter(io.Discard)
+		e.SetErrorWriter(er)
+	case "discE":
+		e.SetWriter(o)
+		e.SetErrorWriter(io.Discard)
+	case "discBoth":
+		e.SetWriter(io.Discard).SetErrorWriter(io.Discard)
+	case "emptied": // whatever was added is removed again: both lists end up empty
+		e.SetWriter(o)
+		e.SetErrorWriter(er)
+		if c.ID%2 == 0 {
+			o2, e2 := &termRec{lg, "o2"}, &termRec{lg, "e2"}
+			e.AddWriter(o2).AddErrorWriter(e2)
+			e.RemoveWriter(o2).RemoveErrorWriter(e2)
+		}
+		e.RemoveWriter(o)
+		e.RemoveErrorWriter(er)
+	case "lvlrec":
+		e.SetWriter(io.Discard).SetErrorWriter(io.Discard)
+		e.AddLevelWriter(slog.PanicLevel, &termRec{lg, "lp"})
+		e.AddLevelWriter(slog.FatalLevel, &termRec{lg, "lf"})
+	case "lvldisc":
+		e.SetWriter(o)
+		e.SetErrorWriter(er)
+		e.AddLevelWriter(slog.PanicLevel, io.Discard)
+		e.AddLevelWriter(slog.FatalLevel, io.Discard)
+	case "lvlemptied":
+		e.SetWriter(o)
+		e.SetErrorWriter(er)
+		lp, lf := &termRec{lg, "lp"}, &termRec{lg, "lf"}
+		e.AddLevelWriter(slog.PanicLevel, lp)
+		e.AddLevelWriter(slog.FatalLevel, lf)
+		if c.ID%2 == 0 {
+			e.RemoveLevelWriter(slog.PanicLevel, lp)
+			e.RemoveLevelWriter(slog.FatalLevel, lf)
+		} else {
+			e.ResetLevelWriter(slog.PanicLevel)
+			e.ResetLevelWriter(slog.FatalLevel)
+		}
+	case "mixed":
+		e.SetWriter(io.Discard).AddWriter(o)
+		e.SetErrorWriter(io.Discard).AddErrorWriter(er)
+	default:
+		return fmt.Errorf("unknown destination class %q", c.Dst)
+	}
+	return nil
 }
 
 func termChildMain(args []string) int {
@@ -688,7 +794,7 @@ func termRunBatch(dir string, idx int, cells []termCell, plan *termPlan, testArg
 			case "E":
 				ended[l.ID] = l
 			case "W":
-				p, _ := base64.StdEncoding.DecodeString(l.P)
+				p := l.raw
 				if began[l.ID] { // writes during setup do not belong to the call
 					writes[l.ID] = append(writes[l.ID], p)
 				}
@@ -763,13 +869,32 @@ func termReadLog(path string) ([]termLine, error) {
 		return nil, err
 	}
 	var res []termLine
-	for _, ln := range bytes.Split(b, []byte{'\n'}) {
+	for len(b) > 0 {
+		k := bytes.IndexByte(b, '\n')
+		ln := b
+		if k >= 0 {
+			ln, b = b[:k], b[k+1:]
+		} else {
+			b = nil
+		}
 		if len(ln) == 0 {
 			continue
 		}
 		var l termLine
 		if err := json.Unmarshal(ln, &l); err != nil {
-			return res, fmt.Errorf("bad log line %q", ln)
+			return res, fmt.Errorf("bad log line %.200q", ln)
+		}
+		if l.N > 0 { // the raw payload follows (what is there of it, if the process died in the write)
+			n := l.N
+			if n > len(b) {
+				n = len(b)
+			}
+			l.raw, b = b[:n], b[n:]
+			if len(b) > 0 && b[0] == '\n' {
+				b = b[1:]
+			}
+		} else if l.P != "" {
+			l.raw, _ = base64.StdEncoding.DecodeString(l.P)
 		}
 		res = append(res, l)
 	}
